@@ -25,13 +25,12 @@ static inline mem_header_t *get_header(uint8_t *src) {
 /* Create new ref counted memory area */
 _public_ void *m_mem_new(size_t size, m_ref_dtor dtor) {
     /* Always use maximum alignment for the platform */
+    /* 
+     * User data must start at an aligned offset from the (aligned) block start, 
+     * and at least one byte is needed before it, to store alignment information.
+     */
     const size_t total_size = sizeof(mem_header_t) + size;
-    size_t total_size_aligned = ALIGN_UP(total_size);
-    uint8_t align_shift = total_size_aligned - total_size;
-    if (align_shift == 0) {
-        /* Add a new aligned block; it is needed to later store alignment information */
-        align_shift = alignof(max_align_t);
-    }
+    const uint8_t align_shift = ALIGN_UP(sizeof(mem_header_t) + 1) - sizeof(mem_header_t);
     mem_header_t *header = memhook._calloc(1, total_size + align_shift);
     if (header) {
         header->refs = 1;
